@@ -838,3 +838,26 @@ package gomatrixserverlib
 //@   ensures refused-type: (input.AuthEventIDs() != nil && input.PrevEventIDs() != nil && len(input.JSON()) <= 65536 && runeCount(input.Type()) > 255) ==> tooLargeHard(err)
 //@   ensures lenient-type: (input.AuthEventIDs() != nil && input.PrevEventIDs() != nil && len(input.JSON()) <= 65536 && runeCount(input.Type()) <= 255 && (input.StateKey() == nil || runeCount(*input.StateKey()) <= 255) && len(input.Type()) > 255) ==> (err != nil && isType(err, EventValidationError) && err.(EventValidationError).Code == 1)
 //@   assigns nothing
+
+// ---------------------------------------------------------------- C06 / C12: key validity and the key ring
+
+//@ func StrictValiditySignatureCheck
+//@   property C12, C06
+//@   ensures rule: result <==> strictValidSpec(atTs, validUntil)
+//@   assigns nothing
+
+//@ func NoStrictValidityCheck
+//@   property C12, C06
+//@   ensures always: result
+//@   assigns nothing
+
+//@ func (PublicKeyLookupResult).WasValidAt
+//@   property C12, C06
+//@   requires signatureValidityCheck != nil
+//@   ensures rule: result == wasValidAtSpec(r, atTs, signatureValidityCheck)
+//@   assigns nothing
+
+//@ func (*KeyRing).isAlgorithmSupported
+//@   property C12
+//@   ensures ed25519: result <==> hasPrefix(keyID, "ed25519:")
+//@   assigns nothing
